@@ -27,5 +27,5 @@ Lemma link_structure :
   /\ Gen.Kernel.out_of_cube_proposals_are_rejected = true
   /\ Gen.Kernel.inverse_and_cholesky_are_of_the_mode_scale_matrix = true
   /\ Gen.Kernel.tpcn_rejects_on_every_coordinate = true
-  /\ Gen.Kernel.rwm_wraps_and_folds_designated_coordinates = true.
+  /\ Gen.Kernel.rwm_wraps_periodic_and_rejects_at_reflective_walls = true.
 Proof. repeat split. Qed.
